@@ -14,7 +14,8 @@ Section Progress.
   | DGrow (k : Z) (fails : kwargs -> bool)     (* grow batch k while the function fails on [fails] *)
   | DDelete (k : Z)
   | DCheckBad
-  | DResow.                                   (* sow the same sweep again from a reloaded object *)
+  | DResow                                    (* sow the same sweep again from a reloaded object *)
+  | DGrowWriteFails (k : Z).                  (* grow batch k while the write of its result file fails *)
 
   Definition dstep (d : disk) (o : dop) : disk :=
     match o with
@@ -22,16 +23,18 @@ Section Progress.
     | DDelete k => delete_result d k
     | DCheckBad => snd (check_bad d)
     | DResow => match sow (reload d) d i None None with Ok (_, d') => d' | Err _ => d end
+    | DGrowWriteFails _ => d      (* publication is atomic (GenPublish / GenCrash): nothing becomes visible *)
     end.
 
   Lemma dstep_inv bl d o : Inv g i bl d -> Inv g i bl (dstep d o).
   Proof.
-    intros HI. destruct o as [k fails| k | |]; cbn [dstep].
+    intros HI. destruct o as [k fails| k | | |k]; cbn [dstep].
     - pose proof (grow_spec g fails i bl d k HI) as H.
       destruct (grow (fn g fails) d k); [tauto|exact HI].
     - apply delete_inv, HI.
     - rewrite (check_bad_inv g i bl d HI). exact HI.
     - destruct (resow_keeps_results g i bl d HI) as (d' & Hs & _ & HI'). rewrite Hs. exact HI'.
+    - exact HI.
   Qed.
 
   Theorem history_inv bl ops : forall d, Inv g i bl d -> Inv g i bl (fold_left dstep ops d).
@@ -48,10 +51,10 @@ Section Progress.
         | Err _ => finished d j
         end
     | DDelete k => if j =? k then false else finished d j
-    | DCheckBad | DResow => finished d j
+    | DCheckBad | DResow | DGrowWriteFails _ => finished d j
     end.
   Proof.
-    intros HI. destruct o as [k fails| k | |]; cbn [dstep].
+    intros HI. destruct o as [k fails| k | | |k']; cbn [dstep].
     - pose proof (grow_spec g fails i bl d k HI) as H.
       destruct (grow (fn g fails) d k) as [d'|]; [|reflexivity].
       destruct H as (_ & _ & _ & Hoth & Hfin & _).
@@ -64,6 +67,7 @@ Section Progress.
     - rewrite (check_bad_inv g i bl d HI). reflexivity.
     - destruct (resow_keeps_results g i bl d HI) as (d' & Hs & Hr & _). rewrite Hs.
       unfold finished. rewrite Hr. reflexivity.
+    - reflexivity.
   Qed.
 
   (* a grow whose function raises on one of the batch's settings writes nothing *)
